@@ -425,3 +425,150 @@ def corruptions(rng, doc, cfg, limit=40):
     # stray closer in front
     for c in b")]}":
         yield bytes([c]) + b" " + doc, {"UNMATCHED_DELIMITER"}, "stray-closer"
+
+
+# --------------------------------------------------------------------------- extension syntax and malformed streams
+
+def ext_snippet(rng, cfg, depth=2):
+    """One form written with extension syntax (for correspondence runs; no expected dump)."""
+    clj = cfg in ("clj", "both")
+    exp = cfg in ("exp", "both")
+    choices = []
+    if clj:
+        choices += ["meta", "meta", "nsmap", "nsmap", "radix", "ratio", "cljchar", "cljstr"]
+    if exp:
+        choices += ["textblock", "textblock", "underscore", "expchar"]
+    if not choices:
+        return render(rng, gen_value(rng, cfg, depth), cfg)
+    k = rng.choice(choices)
+    sub = lambda d=1: render(rng, gen_value(rng, cfg, d, 3), cfg, rich=rng.random() < 0.3)
+    if k == "meta":
+        n = rng.choice([1, 1, 2, 3, 6])
+        out = b""
+        for _ in range(n):
+            a = rng.choice(["map", "kw", "str", "sym", "vec", "bad"])
+            if a == "map":
+                ann = b"{" + b" ".join(rng.choice([b":a", b":b", b":tag", b":c", b"\"s\"", b"x"]) + b" " + sub(0) for _ in range(rng.randint(0, 3))) + b"}"
+                # duplicate keys in the annotation map would be rejected; keep distinct
+                seen, parts = set(), []
+                for kk in [b":a", b":b", b":tag", b":param-tags", b"x"]:
+                    if rng.random() < 0.5 and kk not in seen:
+                        seen.add(kk)
+                        parts.append(kk + b" " + sub(0))
+                ann = b"{" + b" ".join(parts) + b"}"
+            elif a == "kw":
+                ann = rng.choice([b":a", b":b", b":private", b":ns/k", b":tag"])
+            elif a == "str":
+                ann = rng.choice([b"\"String\"", b"\"\""])
+            elif a == "sym":
+                ann = rng.choice([b"String", b"a/b", b"x"])
+            elif a == "vec":
+                ann = b"[" + sub(0) + b"]"
+            else:
+                ann = rng.choice([b"5", b"(1)", b"#{1}", b"nil", b"\\a"])
+            out += b"^" + rng.choice([b"", b" "]) + ann + rng.choice([b" ", b"  ", b"\n"])
+        target = rng.choice(["coll", "coll", "sym", "tagged", "bad"])
+        if target == "coll":
+            t = render(rng, gen_value(rng, cfg, 1, 3), cfg, rich=False)
+            if t[:1] not in b"([{#":
+                t = b"[" + t + b"]"
+        elif target == "sym":
+            t = rng.choice([b"foo", b"a/b", b"+"])
+        elif target == "tagged":
+            t = b"#inst " + sub(0)
+        else:
+            t = rng.choice([b"5", b":kw", b"\"s\"", b"nil", b"", b"]"])
+        return out + t
+    if k == "nsmap":
+        pre = rng.choice([b"ns", b"a.b", b"x", b"ns/bad", b""])
+        keys = [b":a", b":b", b":_/c", b":other/d", b"sym", b"_/s", b"o/t", b"\"str\"", b"5", b":ns/a", b":a"]
+        rng.shuffle(keys)
+        body = b" ".join(kk + b" " + sub(0) for kk in keys[: rng.randint(0, 5)])
+        return b"#:" + pre + rng.choice([b"", b" ", b"\n"]) + b"{" + body + rng.choice([b"}", b"}", b"]", b""])
+    if k == "radix":
+        return rng.choice([b"0x", b"0X", b"0", b"00", b"2r", b"8r", b"16r", b"36r", b"36R", b"1r", b"37r", b"-0x", b"+017"]) + \
+            bytes(rng.choice(b"0123456789abcdefABCDEFzZ_") for _ in range(rng.randint(0, 20))) + rng.choice([b"", b"N", b"M", b"/2"])
+    if k == "ratio":
+        n = rng.choice([rng.randint(-50, 50), rng.randint(-2 ** 63, 2 ** 63 - 1), -2 ** 63, 2 ** 63, 10 ** 25, 0])
+        d = rng.choice([1, 2, 3, rng.randint(1, 100), 2 ** 63 - 1, 2 ** 63, 10 ** 22, 0])
+        return ("%d/%s%d" % (n, rng.choice(["", "", "0"]), d)).encode() + rng.choice([b"", b"", b"N", b"/3", b"x"])
+    if k == "cljchar":
+        return rng.choice([b"\\formfeed", b"\\backspace", b"\\o0", b"\\o7", b"\\o12", b"\\o377", b"\\o400", b"\\o18", b"\\o8", b"\\o1234", b"\\o", b"\\o77x"])
+    if k == "cljstr":
+        return b'"' + b"".join(rng.choice([b"a", b"\\f", b"\\b", b"\\u0041", b"\\u00e9", b"\\ud800", b"\\u12", b"\\uzzzz", b"\\0", b"\\7", b"\\12", b"\\101",
+                                               b"\\377", b"\\400", b"\\8", b"\\n", b"\\q", b"\\\\", b"\\\""]) for _ in range(rng.randint(0, 6))) + b'"'
+    if k == "textblock":
+        return gen_text_block(rng)
+    if k == "underscore":
+        return rng.choice([b"1_000", b"1__0", b"1_", b"_1", b"1_.5", b"1._5", b"1.5_", b"1.5_5e1_0", b"1_e5", b"1e_5", b"1e5_", b"1_N", b"1_000N",
+                           b"1_0.2_5M", b"12345678_9", b"1_2345678_12345678", b"123456789_123456789_1", b"9_223372036854775807", b"9223372036854775_808",
+                           b"-9223372036854775_808", b"0_1", b"1_0/2", b"0x1_F", b"01_7", b"2r1_0"])
+    if k == "expchar":
+        return rng.choice([b"\\u00041", b"\\u000041", b"\\u0000411", b"\\u10FFFF", b"\\u110000", b"\\uFFFFF", b"\\u0041g", b"\\u004"])
+    return sub()
+
+
+def gen_text_block(rng, wellformed=None):
+    nlines = rng.choice([0, 1, 2, 3, 4, 6, 12])
+    lines = []
+    for _ in range(nlines):
+        r = rng.random()
+        indent = rng.choice([b"", b"", b" ", b"  ", b"    ", b"\t", b" \t", b" " * rng.randint(0, 20)])
+        if r < 0.15:
+            lines.append(b"")
+        elif r < 0.3:
+            lines.append(indent)
+        else:
+            body = b"".join(rng.choice([b"a", b"bc", b" ", b"x y", b"\"", b"\"\"", b"\\\"\"\"", b"\\", b"\\n", b"\t", b"SELECT * FROM t", b"0123456789abcdef"])
+                            for _ in range(rng.randint(1, 5)))
+            lines.append(indent + body + rng.choice([b"", b"", b" ", b"  \t"]))
+    closing = rng.choice(["own", "own", "inline", "none", "eofline"]) if wellformed is None else ("own" if wellformed else "none")
+    out = b'"""\n'
+    if closing == "own":
+        out += b"".join(l + b"\n" for l in lines) + rng.choice([b"", b"  ", b"\t", b"    "]) + b'"""'
+    elif closing == "inline":
+        if not lines:
+            lines = [b"x"]
+        out += b"\n".join(lines) + b'"""'
+    elif closing == "none":
+        out += b"".join(l + b"\n" for l in lines)
+    else:
+        out += b"\n".join(lines)
+    return out
+
+
+STRUCT = [b"(", b")", b"[", b"]", b"{", b"}", b"#{", b"#_", b"#", b"^", b"\"", b"\\", b";", b" ", b"\n", b":", b"/", b"0", b"1", b"a", b"-", b".", b"N", b"e", b"##", b"\x00", b"\xff"]
+
+
+def mutate(rng, doc):
+    """A malformed (or accidentally still well-formed) variant of a document."""
+    if not doc:
+        return rng.choice(STRUCT)
+    k = rng.random()
+    i = rng.randrange(len(doc))
+    if k < 0.25:
+        return doc[:i]
+    if k < 0.45:
+        return doc[:i] + doc[i + 1:]
+    if k < 0.7:
+        return doc[:i] + rng.choice(STRUCT) + doc[i + 1:]
+    if k < 0.9:
+        return doc[:i] + rng.choice(STRUCT) + doc[i:]
+    j = rng.randrange(len(doc))
+    a, b = min(i, j), max(i, j)
+    return doc[:a] + doc[b:]
+
+
+def gen_ext_doc(rng, cfg):
+    """A document mixing generated core values with extension-syntax snippets."""
+    parts = []
+    for _ in range(rng.randint(1, 4)):
+        if rng.random() < 0.6:
+            parts.append(ext_snippet(rng, cfg))
+        else:
+            parts.append(render(rng, gen_value(rng, cfg, 2, 3), cfg, rich=False))
+    r = rng.random()
+    if len(parts) == 1 and r < 0.5:
+        return parts[0]
+    op, cl = rng.choice([(b"[", b"]"), (b"(", b")"), (b"#{", b"}"), (b"{", b"}")])
+    return op + b" ".join(parts) + cl
